@@ -30,6 +30,8 @@ def install_all(reg):
     candidates.install(reg)
     candidates.install_helpers(reg)
     candidates.install_helpers2(reg)
+    candidates.install_edge_accessors(reg)
+    candidates.install_nfvs(reg)
     from . import symbolic
     symbolic.install(reg)
     from . import control
